@@ -88,7 +88,15 @@ func (b *stateBackend) Store(
 			return err
 		}
 
-		st, err := state.New(stateUpdate.OldRoot, b.stateDB, batch)
+		// Open the state at the root the chain head ended with, not at the root the state update
+		// claims to start from: st.Update then checks that claim (OldRoot) against the commitment
+		// of the real current state. (Opened at stateUpdate.OldRoot, the state would compare
+		// OldRoot with itself, and an OldRoot of zero would select the empty state.)
+		headRoot, err := headStateRoot(b.database, block)
+		if err != nil {
+			return err
+		}
+		st, err := state.New(headRoot, b.stateDB, batch)
 		if err != nil {
 			return err
 		}
